@@ -22,7 +22,7 @@
 #![cfg(feature = "compact")]
 #![doc(hidden)]
 
-use lexical_util::algorithm::{copy_to_dst, rtrim_char_count};
+use lexical_util::algorithm::copy_to_dst;
 #[cfg(feature = "f16")]
 use lexical_util::bf16::bf16;
 use lexical_util::digit::digit_to_char_const;
@@ -93,7 +93,6 @@ pub fn write_float_scientific<const FORMAT: u128>(
     sci_exp: i32,
     options: &Options,
 ) -> usize {
-    debug_assert!(rtrim_char_count(&digits[..digit_count], b'0') == 0 || digit_count == 1);
     debug_assert!(digit_count <= 20);
 
     // Config options
@@ -160,7 +159,6 @@ pub fn write_float_negative_exponent<const FORMAT: u128>(
     sci_exp: i32,
     options: &Options,
 ) -> usize {
-    debug_assert!(rtrim_char_count(&digits[..digit_count], b'0') == 0);
     debug_assert!(digit_count <= 20);
     debug_assert!(sci_exp < 0);
 
@@ -204,7 +202,6 @@ pub fn write_float_positive_exponent<const FORMAT: u128>(
     sci_exp: i32,
     options: &Options,
 ) -> usize {
-    debug_assert!(rtrim_char_count(&digits[..digit_count], b'0') == 0 || digit_count == 1);
     debug_assert!(digit_count <= 20);
     debug_assert!(sci_exp >= 0);
 
